@@ -134,8 +134,17 @@ FNSEL = {"Path": "FPath", "Glob": "FGlob", "Dir": "FDir", "PathNewer": "FPathNew
 
 
 def gen_case(rng, root, i):
-    env = {"V": rng.choice(["d1", "src", "a", "nosuch"]), "W": rng.choice(["b", "x.go", ""])}
     paths = all_paths(root) or ["a"]
+    dirs = [p for p in paths if lookup(root, comps(p))[0] == "d"]
+    # $V names a real directory (or file) of this tree more often than not, so that expanded
+    # destinations and sources of every kind (missing, file, directory) are exercised
+    v = rng.choice(["d1", "src", "a", "nosuch"])
+    r = rng.random()
+    if dirs and r < 0.45:
+        v = rng.choice(dirs)
+    elif r < 0.65:
+        v = rng.choice(paths)
+    env = {"V": v, "W": rng.choice(["b", "x.go", ""])}
     fn = rng.choice(FNS)
     def pick_src():
         r = rng.random()
@@ -160,7 +169,7 @@ def gen_case(rng, root, i):
     if fn in ("NewestModTime", "OldestModTime"):
         sources = [s for s in sources if "$" not in s] or [rng.choice(paths)]
     r = rng.random()
-    dst = rng.choice(paths) if r < 0.75 else (rng.choice(["missing-dst", "d1/none"]) if r < 0.9 else rng.choice(["$V", "$W"]))
+    dst = rng.choice(paths) if r < 0.65 else (rng.choice(["missing-dst", "d1/none"]) if r < 0.78 else rng.choice(["$V", "${V}", "./$V", "$V/", "$W"]))
     target = rng.choice(TIMES) + rng.choice([0, 0, 1, -1])
     return {"env": env, "fn": fn, "dst": dst, "sources": sources, "target": target}
 
